@@ -11,6 +11,12 @@ fn main() {
     let env = common::Env::from_args();
     let code = match env.property.as_str() {
         "C01" => props::c01(&env),
+        "C02" => props::c02(&env),
+        "C03" => props::c03(&env),
+        "C05" => props::c05(&env),
+        "C06" => props::c06(&env),
+        "C16" => props::c16(&env),
+        "C10" => props::c10_handlers(&env),
         "C08" => c08::main(&env),
         p => {
             eprintln!("bftsim: unknown property {p}");
